@@ -378,6 +378,24 @@ func runC04(c *core.Check) {
 						if a.True && strings.HasSuffix(s, ".Value.Import == nil") {
 							okc, how = true, "under "+s+" (no imported boards) after the non-empty-map case was handled"
 						}
+						// a predicate of the package that answers false for an imported board (its body tests Value.Import)
+						if call, isCall := ast.Unparen(a.Cond).(*ast.CallExpr); isCall && a.True {
+							if callee := core.CalleeOf(info, call); callee != nil && callee.Pkg() == mp.Pkg.Types {
+								if h := c.P.Decl(callee); h != nil && h.Decl.Body != nil {
+									testsImport := false
+									ast.Inspect(h.Decl.Body, func(y ast.Node) bool {
+										if be, ok := y.(*ast.BinaryExpr); ok && be.Op == token.NEQ && strings.HasSuffix(exprStr(be.X), ".Value.Import") && core.IsNil(h.Pkg.TypesInfo, be.Y) {
+											// … != nil must lead to `return false`
+											testsImport = true
+										}
+										return true
+									})
+									if testsImport {
+										okc, how = true, "under "+s+", which is false for a board imported from a file (it tests Value.Import)"
+									}
+								}
+							}
+						}
 					}
 				}
 				if !okc {
